@@ -549,3 +549,89 @@ pub proof fn lemma_neg_bit(m: nat, tz: nat, k: nat)
         }
     }
 }
+
+/// adding or subtracting 2^b complements bit b
+pub proof fn lemma_flip_bit(n: int, b: nat)
+    ensures ibit(n + vstd::arithmetic::power2::pow2(b) as int, b) == !ibit(n, b), ibit(n - vstd::arithmetic::power2::pow2(b) as int, b) == !ibit(n, b)
+{
+    let pb = vstd::arithmetic::power2::pow2(b) as int;
+    vstd::arithmetic::power2::lemma_pow2_pos(b);
+    let q = n / pb;
+    let r = n % pb;
+    vstd::arithmetic::div_mod::lemma_fundamental_div_mod(n, pb);
+    vstd::arithmetic::div_mod::lemma_mod_bound(n, pb);
+    assert(n + pb == pb * (q + 1) + r) by (nonlinear_arith) requires n == pb * q + r;
+    assert(n - pb == pb * (q - 1) + r) by (nonlinear_arith) requires n == pb * q + r;
+    vstd::arithmetic::div_mod::lemma_fundamental_div_mod_converse(n + pb, pb, q + 1, r);
+    vstd::arithmetic::div_mod::lemma_fundamental_div_mod_converse(n - pb, pb, q - 1, r);
+}
+
+/// adding 2^b to a number whose bit b is clear leaves every other bit unchanged
+pub proof fn lemma_add_bit(n: int, b: nat, j: nat)
+    requires !ibit(n, b), j != b
+    ensures ibit(n + vstd::arithmetic::power2::pow2(b) as int, j) == ibit(n, j)
+{
+    let pb = vstd::arithmetic::power2::pow2(b) as int;
+    let ph = vstd::arithmetic::power2::pow2(b + 1) as int;
+    vstd::arithmetic::power2::lemma_pow2_pos(b);
+    vstd::arithmetic::power2::lemma_pow2_unfold(b + 1);
+    assert(ph == 2 * pb);
+    let q = n / pb;
+    let r = n % pb;
+    vstd::arithmetic::div_mod::lemma_fundamental_div_mod(n, pb);
+    vstd::arithmetic::div_mod::lemma_mod_bound(n, pb);
+    let h = q / 2;
+    vstd::arithmetic::div_mod::lemma_fundamental_div_mod(q, 2);
+    assert(q == 2 * h);
+    if j < b {
+        lemma_ibit_mod(n, b, j);
+        lemma_ibit_mod(n + pb, b, j);
+        assert(n + pb == pb * (q + 1) + r) by (nonlinear_arith) requires n == pb * q + r;
+        vstd::arithmetic::div_mod::lemma_fundamental_div_mod_converse(n + pb, pb, q + 1, r);
+    } else {
+        let t = (j - b - 1) as nat;
+        assert(n == ph * h + r) by (nonlinear_arith) requires n == pb * q + r, q == 2 * h, ph == 2 * pb;
+        assert(n + pb == ph * h + (r + pb)) by (nonlinear_arith) requires n == ph * h + r;
+        vstd::arithmetic::div_mod::lemma_fundamental_div_mod_converse(n, ph, h, r);
+        vstd::arithmetic::div_mod::lemma_fundamental_div_mod_converse(n + pb, ph, h, r + pb);
+        lemma_ibit_shift(n, b + 1, t);
+        lemma_ibit_shift(n + pb, b + 1, t);
+        assert(b + 1 + t == j);
+    }
+}
+
+/// the three outcomes of "make bit b of n equal to value", read bit by bit
+pub open spec fn set_bit_target(n: int, b: nat, value: bool) -> int {
+    if value == ibit(n, b) { n } else if value { n + vstd::arithmetic::power2::pow2(b) as int } else { n - vstd::arithmetic::power2::pow2(b) as int }
+}
+pub proof fn lemma_set_bit_bits(n: int, b: nat, value: bool)
+    ensures forall|k: nat| #[trigger] ibit(set_bit_target(n, b, value), k) == (if k == b { value } else { ibit(n, k) })
+{
+    let pb = vstd::arithmetic::power2::pow2(b) as int;
+    let r = set_bit_target(n, b, value);
+    assert forall|k: nat| #[trigger] ibit(r, k) == (if k == b { value } else { ibit(n, k) }) by {
+        lemma_flip_bit(n, b);
+        if value != ibit(n, b) {
+            if value {
+                if k != b { lemma_add_bit(n, b, k); }
+            } else {
+                // n == (n - 2^b) + 2^b with bit b of n - 2^b clear
+                if k != b { lemma_add_bit(n - pb, b, k); assert(n - pb + pb == n); }
+            }
+        }
+    }
+}
+
+/// (1 << b) as a digit at position i is 2^(64 i + b)
+pub proof fn lemma_mask_val(i: nat, b: u64)
+    requires b < 64
+    ensures ((1u64 << b) as nat) * pw(i) == vstd::arithmetic::power2::pow2(64 * i + b as nat), (1u64 << b) as nat == vstd::arithmetic::power2::pow2(b as nat)
+{
+    vstd::arithmetic::power2::lemma2_to64();
+    vstd::arithmetic::power2::lemma_pow2_strictly_increases(b as nat, 64);
+    assert(1 * vstd::arithmetic::power2::pow2(b as nat) <= u64::MAX);
+    vstd::bits::lemma_u64_shl_is_mul(1u64, b);
+    lemma_pw_p2_(i);
+    vstd::arithmetic::power2::lemma_pow2_adds(64 * i, b as nat);
+    assert(vstd::arithmetic::power2::pow2(b as nat) * pw(i) == pw(i) * vstd::arithmetic::power2::pow2(b as nat)) by (nonlinear_arith);
+}
